@@ -193,6 +193,9 @@ def run(chk):
                                   loc="%s:%d" % (cb.file, cb.line))
         chk.instance(rid, d, ok=ok)
 
+    from common import run_witness
+    run_witness(chk, "R14w", "Program: Send + Sync + Clone, dyn Expression: Send + Sync, Runtime::resolve takes &Program; an Expression holding Rc<RefCell<_>> is rejected (E0277)")
+
     rid = "R14e"
     chk.rule(rid, "Runtime::clear -> RuntimeState::clear clears every field of RuntimeState", floor=2)
     adt = facts.adts.get(RUNTIME_STATE)
